@@ -1,7 +1,7 @@
 SPECIFICATION Spec
 CONSTANTS
   Miner = {"m1", "m2", "m3", "m4"}
-  Byz = {"m4"}
+  Byz = {}
   T = 3
   MaxRound = 2
   MaxBlocksPerRound = 2
